@@ -258,7 +258,8 @@ FAULTS = [
     ('list-tail', ['say 1 plus 2,', 'say x taking 1,', 'say x taking 1 and', 'rock x with 1,', 'say 1, 2', 'say 1 &',
                    "say x taking 1 'n'"]),
     ('operand-kind', ['cut 5', 'join "a"', 'cast 5 with 2', 'your "s"', 'a 5', 'say 5 is as', 'say 5 is bigger than',
-                      'put 5 into x at', 'let x at be 5', 'say x at 1 at', 'build 5 up', 'knock "s" down', 'listen to 5']),
+                      'put 5 into x at', 'let x at be 5', 'say x at 1 at', 'build 5 up', 'knock "s" down', 'listen to 5',
+                      'cut ff taking 1', 'join x at 1', 'cast roll x', "say x 'n'", "x taking 1 'n' 'n' 2", 'say 1 is as big as', 'say x is as']),
 ]
 
 
@@ -267,7 +268,7 @@ def inject(rng, prog):
     cat, lines = rng.choice(FAULTS)
     line = rng.choice(lines)
     # keyword case variations
-    if rng.random() < 0.3:
+    if rng.random() < 0.3 and "'n'" not in line:          # (`'N'` is not the `'n'` separator)
         line = line.upper() if rng.random() < 0.5 else line.capitalize()
     # collect insertion points: (list, index)
     points = []
